@@ -27,9 +27,9 @@ META = dict(
 
 def tier_params(tier):
     if tier == "quick":
-        return dict(models=[("orders", 1, 2, 4, 1, 3), ("pools", 1, 0, 0, 1, 3), ("orders", 2, 2, 4, 1, 3)], mc_timeout=420,
+        return dict(models=[("orders", 1, 2, 4, 1, 3, 2), ("pools", 1, 0, 0, 1, 3, 2), ("orders", 2, 2, 4, 1, 3, 2), ("pairs", 1, 2, 0, 1, 3, 1)], mc_timeout=420,
                     budget=1000, depth=7, runs=24, steps=120, trace_timeout=900)
-    return dict(models=[("orders", 1, 3, 0, 1, 4), ("orders", 1, 2, 4, 1, 4), ("pools", 1, 0, 0, 1, 4), ("orders", 2, 3, 0, 1, 3), ("orders", 2, 2, 4, 1, 4)], mc_timeout=1500,
+    return dict(models=[("orders", 1, 3, 0, 1, 4, 2), ("orders", 1, 2, 4, 1, 4, 2), ("pools", 1, 0, 0, 1, 4, 2), ("orders", 2, 3, 0, 1, 3, 2), ("orders", 2, 2, 4, 1, 4, 2), ("pairs", 1, 2, 0, 1, 3, 2)], mc_timeout=1500,
                 budget=5000, depth=8, runs=120, steps=220, trace_timeout=3000)
 
 
@@ -43,15 +43,15 @@ def pipeline(c):
         vlib.stage_spec(wd, [FAM])
         tfile = os.path.join(d, "alphabet.txt")
         models, emitted = [], set()
-        for scope, app, maxoid, slack, maxreq, maxh in P["models"]:
+        for scope, app, maxoid, slack, maxreq, maxh, nusers in P["models"]:
             cfg = "MC_Liquidity_%s_%d_%d_%d.cfg" % (scope, app, maxoid, maxh)
             with open(os.path.join(wd, cfg), "w") as f:
-                f.write("SPECIFICATION Spec\nCONSTANTS MApp = %d  MUsers = {\"u1\", \"u2\"}  Scope = \"%s\"  MaxOid = %d  MMMax = %d  MaxReq = %d  MaxH = %d  Swapped = FALSE  Emit = %s\n"
+                f.write("SPECIFICATION Spec\nCONSTANTS MApp = %d  MUsers = %s  Scope = \"%s\"  MaxOid = %d  MMMax = %d  MaxReq = %d  MaxH = %d  Swapped = FALSE  Emit = %s\n"
                         "CONSTANTS Accts <- MCAccts  Denoms <- MCDenoms\nINVARIANTS InvC04 InvC07 InvCancellable\nCHECK_DEADLOCK FALSE\n"
-                        % (app, scope, maxoid, slack, maxreq, maxh, "FALSE" if (scope, app) in emitted else "TRUE"))
+                        % (app, '{"u1", "u2"}' if nusers == 2 else '{"u1"}', scope, maxoid, slack, maxreq, maxh, "FALSE" if (scope, app) in emitted else "TRUE"))
             emitted.add((scope, app))
             r = vlib.model_check(wd, "MC_Liquidity", cfg, workers=4, tfile=tfile, timeout=P["mc_timeout"])
-            models.append(dict(cfg="scope=%s app=%d MaxOid=%d MMMax=%d MaxReq=%d MaxH=%d" % (scope, app, maxoid, slack, maxreq, maxh),
+            models.append(dict(cfg="scope=%s app=%d users=%d MaxOid=%d MMMax=%d MaxReq=%d MaxH=%d" % (scope, app, nusers, maxoid, slack, maxreq, maxh),
                                generated=r["generated"], distinct=r["distinct"], depth=r.get("depth"), wall=round(r["wall"], 1)))
         # sanity of the model-level formulas: with the code's exchanged lookup (Swapped = TRUE) and app id != pair id the
         # MM-replace step property must FAIL on the model (the counterexample is the confirmed defect, reproduced on real code by the drivers)
@@ -105,7 +105,7 @@ def finish(c, d, res, keys, rule):
 
 def run(c):
     d, res = pipeline(c)
-    return finish(c, d, res, ["farmed", "activeFarm", "activeUnfarm", "supply", "pending", "filled", "zeroSupply", "placed"],
+    return finish(c, d, res, ["farmed", "activeFarm", "activeUnfarm", "supply", "pending", "filled", "zeroSupply", "placed", "mmImproved"],
                   "bounded TLC model (3 configs) checked exhaustively; its alphabet explored breadth-first on the real module (dedup by projected state, "
                   "node budget); seeded random multi-actor runs over 2 apps / 2 pairs / pools (basic+ranged) / farming / all order types with a drain phase; "
                   "each recorded node is one TLC state of Trace_Liquidity (C04_* on every state, C04_SupplyOnlyByPoolOps on every step)")
